@@ -149,4 +149,94 @@ theorem lookup_insert (v : Nat) (b : Bytes) (hb : b ≠ []) (t : Node) :
           have h2 : ¬ cm ++ y :: er <+: q := fun e => h (List.IsPrefix.trans (List.prefix_append _ _) e)
           simp [h, h1, lookup_ext_of_not_prefix _ h2]
 
+/-! ### canonical form is preserved -/
+
+theorem WFn_wrap {v : Nat} {c : List Nib} {n : Node} (hf : n.isFull = true) (h : WFn n) : WFn (wrap v c n) := by
+  cases c with
+  | nil => exact h
+  | cons x c => exact ⟨by simp, hf, h⟩
+
+theorem WFn_full_one {v : Nat} {y : Nib} {n : Node} {b : Bytes} (hn : WFn n) (hb : b ≠ []) :
+    WFn (.full v (upd emptyCh y n) (some b)) := by
+  refine ⟨?_, ?_, ?_⟩
+  · intro i
+    by_cases h : i = y
+    · subst h; right; simpa using hn
+    · left; simp [upd, h, Node.isEmpty]
+  · intro b' h; cases h; exact hb
+  · simp [entryCount, countCh_upd, WFn_ne_empty hn]
+
+theorem WFn_full_two {v : Nat} {x y : Nib} {n1 n2 : Node} (hxy : x ≠ y) (h1 : WFn n1) (h2 : WFn n2) :
+    WFn (.full v (upd (upd emptyCh x n1) y n2) none) := by
+  refine ⟨?_, ?_, ?_⟩
+  · intro i
+    by_cases h : i = y
+    · subst h; right; simpa using h2
+    · by_cases h' : i = x
+      · subst h'; right; simpa [upd, h] using h1
+      · left; simp [upd, h, h', Node.isEmpty]
+  · intro b' h; cases h
+  · have : 1 ≤ cntOther (upd emptyCh x n1) y :=
+      cntOther_pos (i := x) hxy (by simpa using WFn_ne_empty h1)
+    simp [entryCount, countCh_upd, WFn_ne_empty h2]
+    omega
+
+theorem insert_isFull (v : Nat) (b : Bytes) {t : Node} (h : t.isFull = true) (p : List Nib) :
+    (insert v b t p).isFull = true := by
+  cases t with
+  | full o ch val => cases p <;> simp [insert, Node.isFull]
+  | _ => simp [Node.isFull] at h
+
+theorem wf_insert (v : Nat) (b : Bytes) (hb : b ≠ []) (t : Node) :
+    ∀ (p : List Nib), WF t → WFn (insert v b t p) := by
+  induction t with
+  | empty => intro p _; simpa [insert, WFn] using hb
+  | leaf o lp lv =>
+    intro p hwf
+    have hlv : lv ≠ [] := WFn_of_WF_leaf hwf
+    have hl : ∀ o' p', WFn (.leaf o' p' lv) := fun _ _ => hlv
+    have hbl : ∀ o' p', WFn (.leaf o' p' b) := fun _ _ => hb
+    rw [insert]
+    generalize hs : splitCommon p lp = s
+    obtain ⟨c, p', l'⟩ := s
+    obtain ⟨rfl, rfl, hne⟩ := splitCommon_eq hs
+    rcases p' with _ | ⟨x, pr⟩ <;> rcases l' with _ | ⟨y, lr⟩ <;> dsimp only
+    · exact hb
+    · exact WFn_wrap rfl (WFn_full_one (hl _ _) hb)
+    · exact WFn_wrap rfl (WFn_full_one (hbl _ _) hlv)
+    · exact WFn_wrap rfl (WFn_full_two (hne _ _ _ _ rfl rfl) (hbl _ _) (hl _ _))
+  | full o ch val ih =>
+    intro p hwf
+    obtain ⟨hch, hval, hcnt⟩ := WFn_of_WF_full hwf
+    rcases p with _ | ⟨x, pr⟩ <;> rw [insert]
+    · refine ⟨hch, ?_, ?_⟩
+      · intro b' h; cases h; exact hb
+      · simp only [entryCount] at hcnt ⊢
+        cases val <;> simp at hcnt ⊢ <;> omega
+    · have hx := ih x pr (hch x)
+      refine ⟨?_, hval, ?_⟩
+      · intro i
+        by_cases h : i = x
+        · subst h; right; simpa using hx
+        · simpa [upd, h] using hch i
+      · simp only [entryCount] at hcnt ⊢
+        rw [countCh_upd, WFn_ne_empty hx]
+        rw [countCh_eq ch x] at hcnt
+        revert hcnt
+        cases (ch x).isEmpty <;> simp <;> omega
+  | ext o ep c ih =>
+    intro p hwf
+    obtain ⟨hep, hfull, hc⟩ := WFn_of_WF_ext hwf
+    rw [insert]
+    generalize hs : splitCommon p ep = s
+    obtain ⟨cm, p', e'⟩ := s
+    obtain ⟨rfl, rfl, hne⟩ := splitCommon_eq hs
+    have hrest : ∀ er, WFn (extRest v er c) := fun er => by
+      rw [extRest_eq_wrap]; exact WFn_wrap hfull hc
+    rcases e' with _ | ⟨y, er⟩
+    · exact ⟨hep, insert_isFull v b hfull _, ih _ (Or.inr hc)⟩
+    · rcases p' with _ | ⟨x, pr⟩ <;> dsimp only
+      · exact WFn_wrap rfl (WFn_full_one (hrest _) hb)
+      · exact WFn_wrap rfl (WFn_full_two (hne _ _ _ _ rfl rfl) hb (hrest _))
+
 end Verif.Mpt
